@@ -5,3 +5,5 @@ cd "$(dirname "$0")"
 export CARGO_NET_OFFLINE=true
 (cd driver && cargo +nightly build --release --offline)
 python3 rules/facts.py A M R
+# warm the compile-fail witness crate's dependencies (thorough tier of C02 / C06)
+(cd witness && CARGO_TARGET_DIR=../.cache/witness-target cargo +nightly test --doc --offline >/dev/null 2>&1 || true)
